@@ -819,6 +819,8 @@ class ClientSession:
                             parsed_redirect_url = URL(
                                 r_url, encoded=not self._requote_redirect_url
                             )
+                            # encoded=True defers validation of the netloc
+                            parsed_redirect_url.port
                         except ValueError as e:
                             if req._body is not None:
                                 await req._body.close()
